@@ -15,6 +15,7 @@ func init() {
 		ruleU1(c, "C07.U1")
 		ruleU2(c, "C07.U2")
 		ruleU3(c, "C07.U3")
+		ruleW1(c, "C07.U4")
 	}
 }
 
